@@ -72,6 +72,11 @@ func c15Run(c *choice.Ctx, rep *report.R, cfg c15Cfg, addrs []netip.Addr, maxLen
 	admitted := map[string][]c15Admit{} // per subnet
 	var trace []string
 	n := 1 + c.Choose(maxLen, "len")
+	// The caller supplies the time stamp (resourceLimiter reads the clock before it takes the entry's lock): two requests of one
+	// subnet may arrive with their stamps in the wrong order. At most one arrival of a history (not the first) carries a stamp
+	// 1 ms older than the clock; golang.org/x/time/rate then credits that millisecond twice, which the bound allows for.
+	back := c.Choose(n, "stamp-1ms-in-the-past")
+	const backStep = time.Millisecond
 	fail := func(sig, msg string) {
 		rep.Violate("C15:limiter:"+sig, fmt.Sprintf("%s\n  config limit=%v burst=%d v4_mask=%d v6_mask=%d (0 = omitted); arrivals: %s", msg, cfg.limit, cfg.burst, cfg.v4, cfg.v6, strings.Join(trace, " ")),
 			map[string]any{"Choices": c.Choices(), "Tag": tag})
@@ -91,10 +96,21 @@ func c15Run(c *choice.Ctx, rep *report.R, cfg c15Cfg, addrs []netip.Addr, maxLen
 			time.Sleep(d)
 			synctest.Wait()
 		}
-		now := time.Since(start)
-		ok := cl.AllowN(a, time.Now(), cost)
+		stamp := time.Now()
+		if back > 0 && i == back {
+			stamp = stamp.Add(-backStep)
+		}
+		now := stamp.Sub(start)
+		ok := cl.AllowN(a, stamp, cost)
 		sn := c15Subnet(a, v4, v6)
 		trace = append(trace, fmt.Sprintf("+%v %s cost%d=%v", d, a, cost, ok))
+		if back > 0 && i == back {
+			trace[len(trace)-1] += "(stamp 1ms in the past)"
+		}
+		slack := 0.0
+		if back > 0 && i >= back {
+			slack = limit * backStep.Seconds()
+		}
 		if ok {
 			admitted[sn] = append(admitted[sn], c15Admit{now, cost})
 			// (i) over every window ending now, admitted cost of this subnet <= burst + rate*window
@@ -103,12 +119,15 @@ func c15Run(c *choice.Ctx, rep *report.R, cfg c15Cfg, addrs []netip.Addr, maxLen
 			for j := len(ad) - 1; j >= 0; j-- {
 				sum += ad[j].cost
 				w := (now - ad[j].at).Seconds()
-				if float64(sum) > float64(burst)+limit*w+1e-6 {
-					fail("bound-exceeded", fmt.Sprintf("subnet %s: cost %d admitted within a %.3fs window, bound burst+rate*window = %.3f", sn, sum, w, float64(burst)+limit*w))
+				if w < 0 {
+					w = 0
+				}
+				if float64(sum) > float64(burst)+limit*w+slack+1e-6 {
+					fail("bound-exceeded", fmt.Sprintf("subnet %s: cost %d admitted within a %.3fs window, bound burst+rate*window = %.3f", sn, sum, w, float64(burst)+limit*w+slack))
 					break
 				}
 			}
-		} else {
+		} else if back == 0 || i < back {
 			// (ii) a subnet within its own budget must not be refused: reference bucket fed only with this subnet's admitted traffic
 			tokens := float64(burst)
 			last := time.Duration(0)
